@@ -48,6 +48,18 @@ CLAIMS = {
          "Exploration: generated absolute (4 shapes x fraction x zone spelling x spacing), bare-date, +epoch, relative-to-now (fixed `now` hook) and '@' relative-to-other values under -t in 15-minute steps; the resolved bound must equal the independently computed instant, to the second in the summary and to the microsecond through a probe log (inclusive semantics); certainly-invalid values, every ambiguous zone name, double '@' and after>before must be rejected with non-zero status and no output.",
          "Trusts: S4_VERIF_NOW hook for `now`; harness civil-time arithmetic; frozen zone table.",
          "DESIGN.md section 4 C14"),
+ "C11": ("property-based testing (proptest): generated year-less logs with known true instants x modification times x zones x containers, round-trip oracle through `s4 -u -d %s.%9f`",
+         "Exploration: thousands of generated year-less logs (5 notations) spanning 0..several year boundaries with gaps < 360 days, mtime anywhere in the last message's local year (incl. first/last second), -t in 15-minute steps, stored plain/gz (header mtime)/tar (member mtime)/bz2/xz/lz4, block sizes 64..65536, optional windows; the instant attributed to every message must equal the true instant and window selection must follow the true instants.",
+         "Trusts: harness civil-time arithmetic; excluded by construction: Issue #245 (29 Feb followed by a later year) and known finding F17 (29 Feb directly after an earlier year, probed).",
+         "DESIGN.md section 4 C11"),
+ "C15": ("property-based testing (proptest): generated directory trees and stdin splits, differential oracle directory-run vs explicit reference expansion",
+         "Exploration: generated trees (nesting, spaces, non-ASCII and hidden names, compressed/tar/utmp/non-log/tiny files, symlinks to files and directories) whose files all carry messages at the same instants so order is observable; stdout(s4 DIR) must equal stdout(s4 <sorted expansion, symlinks followed, non-log names removed>), a generated split of the list between arguments and stdin must give the same output, and an explicitly named non-log file must be attempted.",
+         "Trusts: the reference expansion written from the statement; symlink and target names classify identically by construction.",
+         "DESIGN.md section 4 C15"),
+ "C17": ("property-based testing (proptest): metamorphic oracle over files of growing size built from a generated unit, high-water marks read from --summary",
+         "Exploration: a generated unit of messages (lines well below the block size, messages spanning blocks through continuation lines) repeated k, 4k, 16k times, block sizes 256..4096 and 65536, plain/gz/bz2/lz4, optional -a search; `blocks high`, `lines high`, `syslines high` of the largest file may exceed the middle file's only by a constant (strict at the default block size) and never by half or more of the added data. Three known findings (probed / excluded by construction).",
+         "Trusts: the --summary high-water marks; constants calibrated on the unchanged tree. Known findings: newline on block end (plain), lines longer than a block, slow creep from failed drops at small block sizes.",
+         "DESIGN.md section 4 C17"),
 }
 PENDING_REASON = "check not built yet in this session (planned in DESIGN.md section 4); not claimed until its check exists and is silent on the unchanged tree"
 
